@@ -256,8 +256,22 @@ func (c10) Exec(h []Ev) []Ev {
 		return out
 	}
 	st := scte35.NewState()
+	// a second tracker lives side by side (one per program in a multi-program receiver): it has two descriptors open and
+	// is not called again; calls on the tracker under test must leave it alone
+	by := scte35.NewState()
+	var byOpen []scte35.SegmentationDescriptor
+	guard(func() {
+		for k, a := range []absDesc{{Type: 0x10, Eid: 7, HasPTS: true, PTS: 111, SegNum: 1, SegExp: 1}, {Type: 0x20, Eid: 8, HasPTS: true, PTS: 222, SegNum: 1, SegExp: 1}} {
+			ev := absToEv(a)
+			ev["vss"] = "none"
+			ev["id"] = 1000 + k
+			by.ProcessDescriptor(c10MkObj(ev, r))
+		}
+		byOpen = by.Open()
+	})
 	dead := false
 	for _, e := range h {
+		e["bystander_same"] = true
 		if dead {
 			e["panic"] = "skipped-after-panic"
 			e["d"], e["res"], e["closed"], e["open"], e["warn"] = Ev{}, "", []int{}, []int{}, "none"
@@ -300,6 +314,12 @@ func (c10) Exec(h []Ev) []Ev {
 				e["res"] = "ok"
 			}
 			e["open"] = ids(st.Open())
+			now := by.Open()
+			same := len(now) == len(byOpen)
+			for k := 0; same && k < len(now); k++ {
+				same = now[k] == byOpen[k]
+			}
+			e["bystander_same"] = same
 		})
 		if GS(e["panic"]) != "" {
 			dead = true
